@@ -152,8 +152,14 @@ func (ssc *defaultStatefulSetControl) ListRevisions(set *apps.StatefulSet) ([]*k
 		return nil, err
 	}
 	res := []*kubeapps.ControllerRevision{}
+	seen := map[string]bool{}
 	for _, item := range append(revisions.Items, revisinsToUpgrade.Items...) {
 		local := item
+		// a revision may carry both the selector labels and the upgrade label, count it once
+		if seen[local.Name] {
+			continue
+		}
+		seen[local.Name] = true
 		// only orphans and revisions controlled by this set belong to its history
 		if ref := metav1.GetControllerOfNoCopy(&local); ref != nil && ref.UID != set.UID {
 			continue
